@@ -163,10 +163,11 @@ def build_decider(prog, dcls, genotype_backed: bool, max_depth: int, call_model,
     ps = init.params
     env = dict(genv)
     env["self"] = Sym("self")
-    first = Obj("Genotype", {"random": Sym("random"), "dna": {}}, DSGE_MOD + ".Genotype") if genotype_backed else Sym("random")
-    vals = [first, Sym("grammar"), max_depth]
-    for p_, v in zip(ps[1:], vals):
-        env[p_] = v
+    byname = {"genotype": Obj("Genotype", {"random": Sym("random"), "dna": {}}, DSGE_MOD + ".Genotype"), "random": Sym("random"),
+              "grammar": Sym("grammar"), "max_depth": max_depth}
+    for p_ in ps[1:]:
+        if p_ in byname:
+            env[p_] = byname[p_]
     a = init.node.args
     names_ = [x.arg for x in a.posonlyargs + a.args]
     for p_, d in zip(names_[len(names_) - len(a.defaults):], a.defaults):
@@ -300,7 +301,7 @@ def enumerate_creation(ctx, g: ModelGrammar, decider_cls: str, max_depth: int, c
         try:
             res = it.run(fn, env)
         except Budget:
-            notes.append(f"script {script}: a branch depends on something the model does not determine")
+            notes.append(f"script {script}: a branch depends on something the model does not determine ({it.fork_sites[:2]})")
             res = []
         runs += 1
         for trace, rv, nts in res[:1]:
